@@ -297,11 +297,11 @@ func (c *Client) Listen() error {
 				break
 			}
 
+			// A datagram that cannot be handled (malformed, unexpected, unknown channel)
+			// is discarded: anybody can send one, it must not stop the read loop.
 			_, err = c.HandleInbound(buf[:n], from)
 			if err != nil {
-				c.log.Debugf("Failed to handle inbound message: %s. Exiting loop", err)
-
-				break
+				c.log.Debugf("Failed to handle inbound message: %s. Discarding", err)
 			}
 		}
 
